@@ -149,6 +149,8 @@ pub struct MapEng<'c, KD: Kind, const N: usize> {
     pub dup_paths: u32,
     /// slot the current op works on (2 = both); the other slot's state is owned by C15
     pub cur_target: usize,
+    /// a container is known to be broken (len > capacity, iteration panics): never drop it
+    pub poisoned: bool,
 }
 
 #[inline]
@@ -184,6 +186,7 @@ impl<'c, KD: Kind, const N: usize> MapEng<'c, KD, N> {
             groups: 0,
             dup_paths: 0,
             cur_target: 0,
+            poisoned: false,
         }
     }
 
@@ -271,6 +274,7 @@ impl<'c, KD: Kind, const N: usize> MapEng<'c, KD, N> {
                 Ok(o) => o,
                 Err(_) => {
                     cx.chk(P_ALL, false, "broken-container", || "iterating the container panicked".into());
+                    self.poisoned = true;
                     return;
                 }
             };
@@ -279,6 +283,9 @@ impl<'c, KD: Kind, const N: usize> MapEng<'c, KD, N> {
             cx.chk(P_WELL, obs.len() == len, "len-vs-iter", || format!("len()={} but iteration yields {} entries", len, obs.len()));
             cx.chk(P_WELL, slot.c.m.is_empty() == (len == 0), "is_empty", || format!("is_empty()={} with len()={}", slot.c.m.is_empty(), len));
             cx.chk(P_WELL, len <= cap, "len-vs-capacity", || format!("len()={len} exceeds capacity()={cap}"));
+            if len > cap || !slot.c.intact() {
+                self.poisoned = true;
+            }
             cx.chk(PS::of(Prop::C03), cap == N, "capacity", || format!("capacity()={cap} but N={N}"));
             cx.chk(P_CANARY, slot.c.intact(), "canary", || "bytes outside the container were overwritten".into());
             for o in &obs {
@@ -477,6 +484,10 @@ impl<'c, KD: Kind, const N: usize> MapEng<'c, KD, N> {
         self.cx.cur_op = "final-drop";
         for w in (0..2).rev() {
             if let Some(s) = self.slots[w].take() {
+                if self.poisoned {
+                    std::mem::forget(s);
+                    continue;
+                }
                 let intact_before = s.c.intact();
                 let model = s.model;
                 let c = s.c;
